@@ -85,6 +85,7 @@ func mergeMap(a, b string) string {
 type tuple struct {
 	S, Wr      int
 	M, W, X, R mask
+	U          mask // "more update paths": added to a non-nil update mask; a nil update mask stays "all writable fields"
 	XAll       bool
 	Coll       bool
 }
@@ -94,7 +95,11 @@ func (t tuple) maskKey() string {
 	if t.XAll {
 		x = "ALL"
 	}
-	return fmt.Sprintf("M=%v W=%v extra=%s reset=%v", t.M, t.W, x, t.R)
+	u := ""
+	if t.U != nil {
+		u = fmt.Sprintf(" more-update=%v", t.U)
+	}
+	return fmt.Sprintf("M=%v%s W=%v extra=%s reset=%v", t.M, u, t.W, x, t.R)
 }
 
 var cat = lib.Catalogue()
@@ -153,6 +158,27 @@ func step(g target, id string, t tuple) (string, string) {
 	if t.M != nil {
 		wopts = append(wopts, resource.WithUpdateMask(lib.FM(t.M...)))
 	}
+	key := t.maskKey()
+	if t.U != nil {
+		wopts = append(wopts, resource.WithMoreUpdatePaths(t.U...))
+		if t.M != nil {
+			// from here on t.M is the effective update mask: the union as a field mask, in which a path that one
+			// of its parents already covers says nothing more
+			all := append(append(mask{}, t.M...), t.U...)
+			t.M = mask{}
+			for _, p := range all {
+				covered := false
+				for _, q := range all {
+					if q != p && strings.HasPrefix(p, q+".") {
+						covered = true
+					}
+				}
+				if !covered {
+					t.M = append(t.M, p)
+				}
+			}
+		}
+	}
 	if t.XAll {
 		wopts = append(wopts, resource.WithAllFieldsWritable())
 	} else if t.X != nil {
@@ -175,7 +201,7 @@ func step(g target, id string, t tuple) (string, string) {
 		after = lib.Leaves(g.get(id))
 	}()
 	if panicked != nil {
-		return "panic " + t.maskKey(), fmt.Sprintf("write panicked: %v", panicked)
+		return "panic " + key, fmt.Sprintf("write panicked: %v", panicked)
 	}
 	// effective writable mask
 	var effW mask
@@ -213,19 +239,19 @@ func step(g target, id string, t tuple) (string, string) {
 	}
 	if err != nil {
 		if d := diff(); d != "" {
-			return "failed-write-changed-store " + t.maskKey(), fmt.Sprintf("write failed (%v) but the store changed: %s", err, d)
+			return "failed-write-changed-store " + key, fmt.Sprintf("write failed (%v) but the store changed: %s", err, d)
 		}
 		if mustReject != "" && status.Code(err) != codes.InvalidArgument {
-			return "wrong-code " + t.maskKey(), fmt.Sprintf("%s: expected InvalidArgument, got %v", mustReject, err)
+			return "wrong-code " + key, fmt.Sprintf("%s: expected InvalidArgument, got %v", mustReject, err)
 		}
 		return "", "" // rejections of valid masks are not flagged: the statement only fixes what must be rejected
 	}
 	if mustReject != "" {
-		return "accepted-invalid-mask " + t.maskKey(), fmt.Sprintf("%s, yet the write was accepted; store changes: %s", mustReject, diff())
+		return "accepted-invalid-mask " + key, fmt.Sprintf("%s, yet the write was accepted; store changes: %s", mustReject, diff())
 	}
 	if t.M != nil && len(t.M) == 0 {
 		if d := diff(); d != "" {
-			return "empty-mask-changed " + t.maskKey(), "empty non-nil update mask changed the store: " + d
+			return "empty-mask-changed " + key, "empty non-nil update mask changed the store: " + d
 		}
 		return "", ""
 	}
@@ -248,14 +274,14 @@ func step(g target, id string, t tuple) (string, string) {
 		switch {
 		case inR:
 			if after[p] != dflt {
-				return "reset-not-cleared " + t.maskKey(), fmt.Sprintf("reset-mask field %s holds %s after the write", p, after[p])
+				return "reset-not-cleared " + key, fmt.Sprintf("reset-mask field %s holds %s after the write", p, after[p])
 			}
 		case !(inM && inW):
 			if isOneof(p) && oneofInE {
 				continue // writing one member of a oneof clears the others: inherent
 			}
 			if after[p] != before[p] {
-				return "frame " + t.maskKey(), fmt.Sprintf("field %s lies outside update-mask ∩ writable-fields but changed: %s -> %s (stored #%d, written #%d)", p, before[p], after[p], t.S, t.Wr)
+				return "frame " + key, fmt.Sprintf("field %s lies outside update-mask ∩ writable-fields but changed: %s -> %s (stored #%d, written #%d)", p, before[p], after[p], t.S, t.Wr)
 			}
 		default:
 			named := (t.M != nil && lib.Covering(t.M, p) == p) || (t.M == nil && !strings.Contains(p, "."))
@@ -276,7 +302,7 @@ func step(g target, id string, t tuple) (string, string) {
 				ok = true
 			}
 			if !ok {
-				return "value " + t.maskKey(), fmt.Sprintf("field %s is inside update-mask ∩ writable-fields: stored %s, written %s, result %s (stored #%d, written #%d)", p, before[p], wl[p], after[p], t.S, t.Wr)
+				return "value " + key, fmt.Sprintf("field %s is inside update-mask ∩ writable-fields: stored %s, written %s, result %s (stored #%d, written #%d)", p, before[p], wl[p], after[p], t.S, t.Wr)
 			}
 		}
 	}
@@ -504,6 +530,19 @@ func main() {
 										s.Distinct(t.maskKey())
 									}
 									s.State(t.maskKey())
+									// the same write once more with "more update paths" on top of its update mask
+									if (S+Wr)%3 == 0 && (s.Thorough || (mi+ri)%3 == 0) {
+										for _, U := range []mask{{"default_string"}, {"default_nested_message.a"}} {
+											tu := t
+											tu.U = U
+											s.Eval(1)
+											s.Trans(1)
+											if k, m := check(tu); k != "" {
+												s.Fail(k, m, tu)
+											}
+											s.State(tu.maskKey())
+										}
+									}
 								}
 							}
 						}
